@@ -55,6 +55,24 @@ def candidates(g, rng, n_sub=3):
             break
     P = c.random_point(rng)
     out.append(("offcurve", (P[0], f.norm(f.add(P[1], f.one)))))
+    if g == 2:
+        # on-curve points whose y lies in Fq (c1 = 0) or is purely imaginary (c0 = 0): the sort-flag comparison must
+        # then fall through to the other coefficient. x = a + b u with 3 a^2 b - b^3 = -4.
+        found = 0
+        while found < 2:
+            b_ = rng.randrange(1, Q)
+            a2 = (b_ ** 3 - 4) * pow(3 * b_, -1, Q) % Q
+            a_ = F.fq_sqrt(a2)
+            if a_ is None:
+                continue
+            x = (a_, b_)
+            P2 = c.lift_x(x)
+            if P2 is None:
+                continue
+            assert P2[1][0] == 0 or P2[1][1] == 0
+            out.append(("y-real" if P2[1][1] == 0 else "y-imag", P2))
+            out.append(("y-real" if P2[1][1] == 0 else "y-imag", c.neg(P2)))
+            found += 1
     # an order-r point of an isomorphic twist: (l^2 x, l^3 y) of a subgroup point (off the curve, but [r] kills it)
     S = subgroup_pt = G.subgroup_point(g, rng)
     lam = f.small(2)
@@ -114,6 +132,13 @@ def run_shard(shard, tier, seed, wd, res):
                     if comp:
                         b[0] ^= 0x20
                         emit(b)
+            # a valid coordinate plus k * 2^381 in a component that has no flag bits: must be a range error
+            for ci in range(1, ncomp):
+                for k in (1, 2, 4, 7):
+                    b = bytearray(base)
+                    v = int.from_bytes(b[48 * ci:48 * ci + 48], "big") + (k << 381)
+                    b[48 * ci:48 * ci + 48] = v.to_bytes(48, "big")
+                    emit(b)
             # two components out of range at once (the first failing one decides nothing observable but the category)
             if ncomp >= 2:
                 b = bytearray(base)
